@@ -194,7 +194,7 @@ package handlers
 //@   at call ProxyRequestToEndpoints 1 assert r.ContentLength == len(passthroughReq.Body) && r.URL.Path == passthroughReq.TargetPath
 
 // native(ty): the shipped profile for endpoint type ty declares native Anthropic support and has it enabled
-//@ spec func anthCfg(ty string) *domain.AnthropicSupportConfig = purecall("ProfileLookup.GetAnthropicSupport", "*domain.AnthropicSupportConfig", ty)
+//@ spec func anthCfg(ty string) *domain.AnthropicSupportConfig = anthOf(ty)
 //@ spec func native(ty string) bool = anthCfg(ty) != nil && anthCfg(ty).Enabled
 
 // passthrough is attempted only with the capable subset: every endpoint handed to the engine in passthrough mode is one
